@@ -28,6 +28,11 @@ type ByteDir struct {
 	MaxRead int
 	// ShortWrite, if >0, makes Write accept at most that many bytes per call (n<len, nil).
 	ShortWrite int
+	// Window, if >0, is a flow-control window: Write blocks (durably) while that many bytes
+	// or more are written but not yet read by the other end.
+	Window int
+	// Stalled: the driver delivers nothing on this direction (a peer that stopped reading).
+	Stalled bool
 	// SlowWrite, if set, is called in the middle of every Write (see Write).
 	SlowWrite func()
 	// ReadLog records every successful underlying Read as (offset, n).
@@ -57,6 +62,19 @@ func (d *ByteDir) bcast() {
 func (d *ByteDir) Write(b []byte) (int, error) {
 	d.mu.Lock()
 	defer d.mu.Unlock()
+	if d.rerr != nil {
+		return 0, d.rerr
+	}
+	if d.closedW {
+		return 0, io.ErrClosedPipe
+	}
+	for d.Window > 0 && len(d.All)-d.read >= d.Window && d.rerr == nil && !d.closedW && !d.closedR {
+		// back-pressure: wait until the reader has consumed something
+		w := d.wake
+		d.mu.Unlock()
+		<-w
+		d.mu.Lock()
+	}
 	if d.rerr != nil {
 		return 0, d.rerr
 	}
@@ -191,6 +209,9 @@ func (d *ByteDir) ReadDeadline(b []byte, deadline time.Time) (int, error) {
 			copy(b, d.All[d.read:d.read+n])
 			d.ReadLog = append(d.ReadLog, [2]int{d.read, n})
 			d.read += n
+			if d.Window > 0 {
+				d.bcast()
+			}
 			var err error
 			if d.ErrWithData && d.closedW && d.read == len(d.All) {
 				err = io.EOF
@@ -244,7 +265,7 @@ var ErrByteReset = errors.New("dsim: byte stream reset")
 // drawn when the action fires.
 func (d *ByteDir) DeliverAction(s *Sim) (Action, bool) {
 	n := d.InTransit()
-	if n == 0 {
+	if n == 0 || d.Stalled {
 		return Action{}, false
 	}
 	return Action{Name: "1dlv:" + d.Name, Weight: 10, Fire: func() {
